@@ -783,6 +783,10 @@ class DirectoryRecord:
                     if not allow_duplicate:
                         raise pycdlibexception.PyCdlibInvalidInput('Failed adding duplicate name to parent')
 
+                    # The new record continues the last of the records of
+                    # this name; a very large file can have more than two.
+                    while index + 1 < len(self.children) and self.children[index + 1].file_ident == child.file_ident:
+                        index += 1
                     self.children[index].data_continuation = child
                     self.children[index].file_flags |= (1 << self.FILE_FLAG_MULTI_EXTENT_BIT)
                     index += 1
